@@ -70,6 +70,49 @@ theorem fromItem_seq (hI : Lawful I) (it : T) (p : Nat) (hs : Singleton I it) :
 /-- a fresh item is such an item -/
 theorem new_singleton (hI : Lawful I) (v : V) : Singleton I (I.new v) := Singleton_new I hI v
 
+/-- modifying an item that stands for one element (`it.modify(m)` on a fresh item, or on one the API
+    returned) gives an item that stands for the modified element; the modification stays PENDING in it
+    (`I.pa (I.tag m it) = I.act m ∘ I.pa it`, law `tag_pa`) — `insertItem_seq` / `fromItem_seq` apply to it -/
+theorem tagged_singleton (hI : Lawful I) (m : M) (it : T) (hs : Singleton I it) :
+    Singleton I (I.tag m it) ∧ I.own (I.tag m it) = I.act m (I.own it) ∧
+    ∀ a, I.pa (I.tag m it) a = I.act m (I.pa it a) :=
+  ⟨Singleton_tag I hI m it hs, hI.tag_own m it, hI.tag_pa m it⟩
+
+/-- **`insert_at` of an item that carries a pending modification** (`let mut it = Item::new(v); it.modify(m);
+    t.insert_at(k, it)`): the modified element appears at position `k` and NO other element changes — the
+    modification was attached to the one-element subtree `[v]`, not to whatever ends up below the new node —
+    whatever priority the new node draws (i.e. also when it is linked above its neighbours). -/
+theorem insertTagged_seq (hI : Lawful I) (t : Tree T) (k : Nat) (v : V) (m : M) (p : Nat) (h : WFt I t) :
+    seq I (insertAt I t k (I.tag m (I.new v)) p) =
+      (seq I t).take k ++ I.act m (I.own (I.new v)) :: (seq I t).drop k ∧
+    WFt I (insertAt I t k (I.tag m (I.new v)) p) := by
+  have hs := Singleton_tag I hI m _ (Singleton_new I hI v)
+  obtain ⟨q1, q2⟩ := insertAt_item_spec I hI t k _ p h hs
+  exact ⟨by rw [q1, hI.tag_own], q2⟩
+
+/-- **the item at the root of a one-element treap, read through the public `root` field** (`t.size() == 1`;
+    nobody pushed it: it carries every modification attached to that treap since it was cut out): the treap is
+    that single node, the item stands for its element, and `insert_at(pos, it)` into ANY treap `u` puts exactly
+    that element at `pos` and changes nothing else, whatever priority the new node draws. -/
+theorem rootItem_seq (hI : Lawful I) (t : Tree T) (h : WFt I t) (it : T) (ho : onlyItem? I t = some it)
+    (u : Tree T) (hu : WFt I u) (pos p : Nat) :
+    seq I t = [I.own it] ∧ Singleton I it ∧
+    seq I (insertAt I u pos it p) = (seq I u).take pos ++ I.own it :: (seq I u).drop pos ∧
+    WFt I (insertAt I u pos it p) := by
+  obtain ⟨_, h2, h3⟩ := onlyItem_some I hI t h it ho
+  exact ⟨h2, h3, insertAt_item_spec I hI u pos it p hu h3⟩
+
+/-- `onlyItem?` answers exactly for the treaps that represent one element -/
+theorem rootItem_iff (hI : Lawful I) (t : Tree T) (h : WFt I t) :
+    (∃ it, onlyItem? I t = some it) ↔ (seq I t).length = 1 := by
+  constructor
+  · rintro ⟨it, ho⟩
+    rw [(onlyItem_some I hI t h it ho).2.1]; rfl
+  · intro hl
+    cases ho : onlyItem? I t with
+    | some it => exact ⟨it, rfl⟩
+    | none => exact absurd hl (onlyItem_none I t h ho)
+
 /-- **moving an element**: `let it = t.remove_at(k); t.insert_at(j, it)` — the item the removal
     returned is re-used as it is. The sequence loses position `k` and gets that element at `j`. -/
 theorem moveAt_seq (hI : Lawful I) (t : Tree T) (k j : Nat) (p : Nat) (h : WFt I t) (hk : k < (seq I t).length)
@@ -248,6 +291,23 @@ example : runStatedB (G := Int × Int) affHash []
 example : (runS (G := Int × Int) affHash []
     [.item 1 7, .item 5 7, .item 9 2, .merge 0 1, .merge 0 1, .tag 0 (-1, 0), .moveAt 0 0 0 2 4, .takeAt 0 1 9,
      .moveAt 0 0 1 1 3, .dup 0 1 6, .collect2 1 0]).map (·.1) = some [[-1], [-9, -5], [-1]] := by decide
+
+-- items that carry a PENDING modification handed to `insert_at` (hand-built, taken from / cloned off the root of a
+-- modified one-element treap): in the stated domain; the neighbours of the inserted element are not modified
+example : runStatedB (G := Int × Int) affHash []
+    [.item 1 7, .item 5 3, .merge 0 1, .insertTag 0 1 9 (-1, 4) 0, .item 2 6, .tag 1 (0, 8), .tag 1 (1, 1),
+     .moveRoot 1 1 0 0 2, .moveRoot 1 0 0 4 1, .moveRoot 1 0 0 0 5, .collect 0] = true := by decide
+
+example : (runS (G := Int × Int) affHash []
+    [.item 1 7, .item 5 3, .merge 0 1, .insertTag 0 1 9 (-1, 4) 0, .item 2 6, .tag 1 (0, 8), .tag 1 (1, 1),
+     .moveRoot 1 1 0 0 2, .moveRoot 1 0 0 4 1, .moveRoot 1 0 0 0 5, .collect 0]).map (·.1) = some [[9, 1, -5, 5, 9], []] := by decide
+
+-- the hand-built item really carries a pending modification (it is not the identity) …
+example : affHash.pa (affHash.tag (-1, 4) (affHash.new 9)) 7 = -3 := by decide
+-- … and so does the root item of a modified one-element treap, which `onlyItem?` hands out
+example : onlyItem? affHash (tagRoot affHash (1, 1) (tagRoot affHash (0, 8) (single (affHash.new 2) 6)))
+    = some ⟨9, 2, 9, 0, 9, 1⟩ := by decide
+example : affHash.pa (⟨9, 2, 9, 0, 9, 1⟩ : AffIt) 5 = 9 := by decide
 
 -- `removeAt_seq`'s hypotheses are satisfiable and what it returns exists: a two-node treap with a pending tag
 example : ∃ it, (removeAt affHash (tagRoot affHash (1, 4) (merge affHash (single (affHash.new 3) 5) (single (affHash.new 8) 2))) 1).1
